@@ -26,6 +26,20 @@ namespace Haqq.Peg
 theorem step_refused (p : Pair) (op : Op) (h : (step p op).2 = false) : (step p op).1 = p := by
   cases op <;> simp only [step] at h ⊢ <;> (repeat' split at h) <;> (repeat' split) <;> simp_all
 
+/-- a conversion by an account that holds no coins of the denomination named — which is what a MsgConvertCoin naming the
+    pair by its contract address is: nobody holds coins of such a "denomination" — is refused and changes nothing -/
+theorem convertCoin_without_coins_refused (p : Pair) (s r x : Nat) (h : p.coinBal s = 0) :
+    step p (.convertCoin s r x) = (p, false) := by
+  simp only [step]
+  split
+  · rfl
+  · rename_i hc
+    exfalso; apply hc
+    by_cases hx : x = 0
+    · simp [hx]
+    · have : p.coinBal s < x := by omega
+      simp [this]
+
 theorem step_backed (p : Pair) (op : Op) (h : Backed p) : Backed (step p op).1 := by
   unfold Backed at *
   cases op with
